@@ -6,7 +6,8 @@
 #include <mspack.h>
 
 #define MAXFILES 64
-struct mfile { char name[80]; unsigned char *data; size_t len, cap; int used; };
+struct mfile { char name[80]; unsigned char *data; size_t len, cap; int used;
+               size_t vlen, voff; };   /* vlen != 0: a sparse read-only file of vlen bytes, zero except for data[0..len) at offset voff */
 extern struct mfile mfiles[MAXFILES];
 extern int nmfiles;
 
